@@ -20,23 +20,24 @@ import GaeaVerif.Lemmas.SessConnsPins
      can legitimately run on;
    * `never_used_after_return`: no backend call ever hits a connection that is
      not out (it may belong to another session by then);
-   * `tx_conns_master`: between commands the transaction holds, per slice, one
-     connection, which is a master connection of that slice and is out;
-   * `tx_affinity_partial`: the entry of a slice in the transaction's map does
-     not change until a command that ends the transaction.
+   * `tx_conns_master`, `ks_conns_master`: between commands the session holds,
+     per slice, one connection, which is a master connection of that slice and
+     is out (keep-session mode and read-only users included);
+   * `tx_affinity` (`tx_pin_stable`, `tx_held_stable`, `tx_affinity_tx`): the
+     connection filed under a slice does not change until a command that ends
+     the transaction - for all histories, faults, timeouts and lost connections:
+     when the transaction loses a connection the session is closed instead
+     (`tx_conns_open`: an open session in a transaction holds no closed
+     connection).
   "COMMIT and ROLLBACK are sent to exactly the connections used by the
-  transaction, after which those connections are released" is `commit_targets`
-  (COMMIT; for ROLLBACK only the release is proved: it skips connections that
-  are already closed) and `commit_releases`.
+  transaction, after which those connections are released" is `commit_targets`,
+  `rollback_targets` and `commit_releases`.
 
-  The pinned tree violates the full statements in three ways, each with a
-  witness below and a `known/C18.json` entry: after a statement timeout the
-  transaction silently continues on a new connection
-  (`tx_continues_after_conn_loss_witness`; the partial theorems exclude
-  timeouts), a read-only user of a keep-session namespace runs its
-  transactions on a replica (`ks_readonly_tx_on_replica_witness`), and a
-  sharded statement that times out gives its connection back while the worker
-  still uses it (C19.return_in_flight_witness).
+  The pinned tree violated the full statements in three ways; all three are
+  repaired (fix commits 5a42848, cb8bfb6, e307c15) and the former witness
+  histories are kept as theorems about the repaired behaviour
+  (`tx_conn_loss_closes_session`, `ks_readonly_tx_on_master`,
+  C19.`timeout_conn_closed_before_return`) and as corpus cases.
 -/
 namespace GaeaVerif.C18
 open GaeaVerif.SessionConns
@@ -96,60 +97,112 @@ theorem idle_holds_nothing (cfg : Cfg) (ops : List Op) (hks : cfg.ks = false)
     (run cfg ops).txConns = [] ∧ (run cfg ops).ksConns = [] :=
   ⟨(idle_run_all cfg ops).inv.txIdle hin, (idle_run_all cfg ops).inv.ksOff hks⟩
 
-/-- the hypotheses of the partial theorems: no statement timeout (and no ping failure) is injected -/
-def Calm (ops : List Op) : Prop := ∀ op ∈ ops, CalmOp op
-
-def qCalm : Q := { t := false, p := true }
-
-theorem idle_calm (cfg : Cfg) (ops : List Op) (h : Calm ops) : Idle qCalm cfg (run cfg ops) :=
-  idle_run cfg ops (fun op hop => ⟨fun hq => by simp [qCalm] at hq, fun _ => h op hop⟩)
-
 /-- One more operation that does not end the transaction (anything but COMMIT,
-    ROLLBACK, autocommit=1, quit, disconnect) keeps every entry of the
-    transaction's map. -/
-theorem tx_pin_stable_partial (cfg : Cfg) (ops : List Op) (op : Op) (hks : cfg.ks = false)
-    (hc : Calm ops) (hco : CalmOp op) (hkeep : op.body.keepsTx = true) :
-    ∀ e ∈ (run cfg ops).txConns, e ∈ (run cfg (ops ++ [op])).txConns := by
+    ROLLBACK, autocommit=1, quit, disconnect), whatever its faults, timeouts and
+    iteration order: every entry of the transaction's map is still there
+    afterwards, or the session has been closed (which is what happens when the
+    transaction loses a connection: the statement fails and `Session.Run` ends
+    the session, fix 5a42848). -/
+theorem tx_pin_stable (cfg : Cfg) (ops : List Op) (op : Op) (hkeep : op.body.keepsTx = true) :
+    ∀ e ∈ (run cfg ops).txConns,
+      e ∈ (run cfg (ops ++ [op])).txConns ∨ (run cfg (ops ++ [op])).closed = true := by
   intro e he
   rw [run_snoc]
-  have hI := idle_calm cfg ops hc
-  cases hcl : (run cfg ops).closed with
-  | true => rw [(hI.clean hcl).1] at he; cases he
-  | false =>
-    cases hcmd : op.body.isCommand with
-    | true =>
-      have hq : op.body ≠ .quit := by intro h; rw [h] at hkeep; simp [Body.keepsTx] at hkeep
-      obtain ⟨_, htx, _, _⟩ := grow_step (q := qCalm) cfg op
-        ⟨fun hq => by simp [qCalm] at hq, fun _ => hco⟩ rfl hcmd hq hI hcl (Or.inl hks)
-      obtain ⟨A, hA⟩ := htx hkeep
-      rw [hA]; exact List.mem_append_left _ he
-    | false =>
-      -- a reload between two commands (a disconnect ends the transaction)
-      have hb : op.body = .nsc := by
-        cases hb : op.body <;> simp_all [Body.isCommand, Body.keepsTx]
-      unfold step
-      simp only [hcl, hb, Bool.false_eq_true, if_false]
-      exact he
+  have hI := idle_run_all cfg ops
+  have hin : (run cfg ops).isInTransaction = true := by
+    cases h : (run cfg ops).isInTransaction with
+    | true => rfl
+    | false => rw [hI.inv.txIdle h] at he; cases he
+  rcases keep_step_in_tx cfg op (qhop_none op) hI hkeep hin with h | ⟨_, h, _⟩
+  · exact Or.inr h
+  · exact Or.inl (h e he)
 
-/-- FULL STATEMENT (false of the pinned tree, see the witness below): the same
-    without `Calm`.  Between the command that made the transaction take a
-    connection for slice S and the command that ends the transaction, the
-    connection filed under S is the same: whatever the commands in between,
-    their faults and their iteration orders, as long as no statement times
-    out.  With `tx_conns_master`, `no_second_conn_on_slice` and
-    `never_used_after_return` this is "all statements of the transaction on S
-    run on one master connection". -/
-theorem tx_affinity_partial (cfg : Cfg) (ops mid : List Op) (hks : cfg.ks = false)
-    (hc : Calm (ops ++ mid)) (hkeep : ∀ op ∈ mid, op.body.keepsTx = true) :
-    ∀ e ∈ (run cfg ops).txConns, e ∈ (run cfg (ops ++ mid)).txConns := by
+/-- The same for everything a session in a transaction holds, keep-session mode
+    included (there the transaction runs on the pinned connections): one more
+    operation that does not end the transaction leaves the session closed, or
+    still in its transaction with every connection it held, filed under the same
+    slice. -/
+theorem tx_held_stable (cfg : Cfg) (ops : List Op) (op : Op) (hkeep : op.body.keepsTx = true)
+    (hin : (run cfg ops).isInTransaction = true) :
+    (run cfg (ops ++ [op])).closed = true ∨
+    ((run cfg (ops ++ [op])).isInTransaction = true ∧
+      ∀ e ∈ held (run cfg ops), e ∈ held (run cfg (ops ++ [op]))) := by
+  rw [run_snoc]
+  rcases keep_step_in_tx cfg op (qhop_none op) (idle_run_all cfg ops) hkeep hin with h | ⟨h1, h2, h3⟩
+  · exact Or.inl h
+  · refine Or.inr ⟨h1, ?_⟩
+    intro e he
+    simp only [held, List.mem_append] at he ⊢
+    rcases he with he | he
+    · exact Or.inl (h2 e he)
+    · exact Or.inr (h3 e he)
+
+theorem closed_stays (cfg : Cfg) (ops mid : List Op) (h : (run cfg ops).closed = true) :
+    (run cfg (ops ++ mid)).closed = true := by
   induction mid generalizing ops with
-  | nil => intro e he; simpa using he
+  | nil => simpa using h
+  | cons op mid ih =>
+    have h1 : (run cfg (ops ++ [op])).closed = true := by
+      rw [run_snoc]; unfold step; simp [h]
+    have := ih (ops ++ [op]) h1
+    simpa using this
+
+/-- `tx_affinity` — the transaction stays on its connections.  From any point
+    of any history at which the session is in a transaction, through any further
+    operations that do not end the transaction (statements on any slices,
+    savepoints, BEGIN again, pings, reloads; any backend faults, statement
+    timeouts, lost connections, iteration orders): the connection filed under a
+    slice is the same at the end - or the session has been closed.  No
+    transaction silently continues on another connection.  With
+    `tx_conns_master`, `ks_conns_master`, `no_second_conn_on_slice` and
+    `never_used_after_return` this is "every statement of the transaction that
+    touches slice S runs on one and the same master connection of S". -/
+theorem tx_affinity (cfg : Cfg) (ops mid : List Op) (hkeep : ∀ op ∈ mid, op.body.keepsTx = true)
+    (hin : (run cfg ops).isInTransaction = true) :
+    (run cfg (ops ++ mid)).closed = true ∨
+    ((run cfg (ops ++ mid)).isInTransaction = true ∧
+      ∀ e ∈ held (run cfg ops), e ∈ held (run cfg (ops ++ mid))) := by
+  induction mid generalizing ops with
+  | nil => exact Or.inr ⟨by simpa using hin, fun e he => by simpa using he⟩
+  | cons op mid ih =>
+    rcases tx_held_stable cfg ops op (hkeep op (by simp)) hin with h | ⟨h1, h2⟩
+    · left
+      have := closed_stays cfg (ops ++ [op]) mid h
+      simpa using this
+    · rcases ih (ops ++ [op]) (fun o ho => hkeep o (by simp [ho])) h1 with h | ⟨h3, h4⟩
+      · left; simpa using h
+      · right
+        refine ⟨by simpa using h3, fun e he => ?_⟩
+        have := h4 e (h2 e he)
+        simpa using this
+
+/-- the transaction's map alone (outside keep-session mode everything the
+    transaction holds): no hypothesis on the state at all -/
+theorem tx_affinity_tx (cfg : Cfg) (ops mid : List Op) (hkeep : ∀ op ∈ mid, op.body.keepsTx = true) :
+    ∀ e ∈ (run cfg ops).txConns,
+      e ∈ (run cfg (ops ++ mid)).txConns ∨ (run cfg (ops ++ mid)).closed = true := by
+  induction mid generalizing ops with
+  | nil => intro e he; left; simpa using he
   | cons op mid ih =>
     intro e he
-    have h1 := tx_pin_stable_partial cfg ops op hks
-      (fun o ho => hc o (by simp [ho])) (hc op (by simp)) (hkeep op (by simp)) e he
-    have := ih (ops ++ [op]) (by simpa using hc) (fun o ho => hkeep o (by simp [ho])) e h1
-    simpa using this
+    rcases tx_pin_stable cfg ops op (hkeep op (by simp)) e he with h | h
+    · have := ih (ops ++ [op]) (fun o ho => hkeep o (by simp [ho])) e h
+      simpa using this
+    · right
+      have := closed_stays cfg (ops ++ [op]) mid h
+      simpa using this
+
+/-- Between two commands, the connections of an open session that is in a
+    transaction are all open: a transaction never goes on with a lost connection. -/
+theorem tx_conns_open (cfg : Cfg) (ops : List Op) (hopen : (run cfg ops).closed = false)
+    (hin : (run cfg ops).isInTransaction = true) :
+    ∀ e ∈ held (run cfg ops), isClosed e.2 (run cfg ops).w = false := by
+  intro e he
+  refine heldOpen_run cfg ops hopen hin e.2 ?_
+  simp only [held, List.mem_append] at he
+  rcases he with he | he
+  · exact List.mem_append_left _ (mem_vals.2 ⟨e.1, he⟩)
+  · exact List.mem_append_right _ (mem_vals.2 ⟨e.1, he⟩)
 
 /-- COMMIT, ROLLBACK and autocommit=1 (outside keep-session mode) leave the
     transaction's map empty and every connection that was in it given back
@@ -203,6 +256,7 @@ theorem commit_targets (cfg : Cfg) (ops : List Op) (op : Op) (hks : cfg.ks = fal
   rw [e]
   obtain ⟨s2, hw2, htx2, hks2, hw⟩ := runCommand_w_noks (ctx := { cfg := cfg, ord := op.ord, faults := op.faults })
     (s := { (run cfg ops) with w := { (run cfg ops).w with trace := [] } }) hks op.body (Or.inl hb) hI.cont
+    (hI.inv.ksOff hks)
   rw [hw, hb]
   show (callsOn .C (commit _ s2).1.w.trace).Perm _
   have hks0 : s2.ksConns = [] := by rw [hks2]; exact hI.inv.ksOff hks
@@ -221,7 +275,61 @@ theorem commit_targets (cfg : Cfg) (ops : List Op) (op : Op) (hks : cfg.ks = fal
   rw [htx2]
   exact (iterOrder_perm op.ord (run cfg ops).txConns).map _
 
-/-! ## Witnesses of the known findings -/
+/-- ROLLBACK (outside keep-session mode) is sent to exactly the connections of
+    the transaction, each once: the connections that receive a ROLLBACK during
+    the command are, up to order, the ones filed in the transaction's map
+    (`rollback` skips a connection that is closed, but an open session in a
+    transaction holds none: `tx_conns_open`). -/
+theorem rollback_targets (cfg : Cfg) (ops : List Op) (op : Op) (hks : cfg.ks = false)
+    (hb : op.body = .rollback) (hopen : (run cfg ops).closed = false) :
+    (callsOn .R (run cfg (ops ++ [op])).w.trace).Perm (run cfg ops).txConns.vals := by
+  have hI := idle_run_all cfg ops
+  rw [run_snoc]
+  have e : (step cfg (run cfg ops) op).1 = (runCommand { cfg := cfg, ord := op.ord, faults := op.faults } op.body
+      { (run cfg ops) with w := { (run cfg ops).w with trace := [] } }).1 := by
+    unfold step
+    dsimp only
+    simp only [hopen, hb, Bool.false_eq_true, if_false]
+  rw [e]
+  obtain ⟨s2, hw2, htx2, hks2, hw⟩ := runCommand_w_noks (ctx := { cfg := cfg, ord := op.ord, faults := op.faults })
+    (s := { (run cfg ops) with w := { (run cfg ops).w with trace := [] } }) hks op.body (Or.inr (Or.inl hb)) hI.cont
+    (hI.inv.ksOff hks)
+  rw [hw, hb]
+  show (callsOn .R (rollback _ s2).1.w.trace).Perm _
+  have hks0 : s2.ksConns = [] := by rw [hks2]; exact hI.inv.ksOff hks
+  simp only [rollback, hks0, iterOrder, sortBy, CMap.vals, List.foldr_nil, List.map_nil, eachConn]
+  have hnd : (iterOrder op.ord s2.txConns).vals.Nodup := by
+    have hp := (iterOrder_perm op.ord s2.txConns).map (fun e : Nat × Nat => e.2)
+    refine (hp.nodup_iff).2 ?_
+    rw [htx2]
+    exact (tx_conns_master cfg ops).2.2
+  have hv : ∀ c ∈ (iterOrder op.ord s2.txConns).vals, ∃ cn : Conn, s2.w.conns[c]? = some cn ∧ cn.closed = false := by
+    intro c hc
+    have hc' : c ∈ (run cfg ops).txConns.vals := by rw [← htx2]; exact iter_vals_sub _ _ c hc
+    obtain ⟨sl, hsl⟩ := mem_vals.1 hc'
+    obtain ⟨cn, hcn, _⟩ := hI.inv.wi.out (sl, c) (by simp [held, hsl])
+    have hin : (run cfg ops).isInTransaction = true := by
+      cases h : (run cfg ops).isInTransaction with
+      | true => rfl
+      | false => rw [hI.inv.txIdle h] at hsl; cases hsl
+    have hop := tx_conns_open cfg ops hopen hin (sl, c) (by simp [held, hsl])
+    simp only [isClosed] at hop
+    replace hcn : (run cfg ops).w.conns[c]? = some cn := hcn
+    rw [hcn] at hop
+    exact ⟨cn, by rw [hw2]; exact hcn, hop⟩
+  have := callsOn_eachRollbackTx { cfg := cfg, ord := op.ord, faults := op.faults } mergeLast _ s2.w true hnd hv
+  simp only [iterOrder, sortBy, CMap.vals] at this
+  rw [this, hw2]
+  simp only [callsOn, List.filterMap_nil, List.append_nil]
+  refine (List.reverse_perm _).trans ?_
+  rw [htx2]
+  exact (iterOrder_perm op.ord (run cfg ops).txConns).map _
+
+/-! ## The three defects of the pinned tree, repaired
+
+  The histories that witnessed the former known findings are kept: the
+  theorems below state what the repaired code does on them (they were
+  `…_witness` theorems of the negation before the fix commits). -/
 
 /-- a transaction on slice 0, a statement that times out, another statement -/
 def connLossOps : List Op :=
@@ -230,14 +338,15 @@ def connLossOps : List Op :=
     { body := .qu .w, ord := [0, 1], faults := [{ k := .x, slice := 0, mode := .t }] },
     { body := .qu .w, ord := [0, 1], faults := [] } ]
 
-/-- Known finding `tx-continues-after-conn-loss`: the full statement of
-    `tx_affinity_partial` fails when a statement times out: the transaction is
-    still open for the client, but its statements now run on connection 1
-    instead of connection 0. -/
-theorem tx_continues_after_conn_loss_witness :
+/-- Former finding `tx-continues-after-conn-loss` (repaired by 5a42848): the
+    statement that times out ends the session; the transaction's connection was
+    closed, rolled back by nobody else and given back exactly once, and no
+    second connection is ever taken. -/
+theorem tx_conn_loss_closes_session :
     (run { ks := false, user := .w, fb := true } (connLossOps.take 2)).txConns = [(0, 0)] ∧
-    (run { ks := false, user := .w, fb := true } connLossOps).txConns = [(0, 1)] ∧
-    (run { ks := false, user := .w, fb := true } connLossOps).inTrans = true := by
+    (run { ks := false, user := .w, fb := true } (connLossOps.take 3)).closed = true ∧
+    (run { ks := false, user := .w, fb := true } connLossOps).txConns = [] ∧
+    ((run { ks := false, user := .w, fb := true } connLossOps).w.conns.map fun c => (c.closed, c.returns)) = [(true, 1)] := by
   decide
 
 /-- a read-only user of a keep-session namespace opens a transaction -/
@@ -245,18 +354,19 @@ def ksReadonlyOps : List Op :=
   [ { body := .begin, ord := [0, 1], faults := [] },
     { body := .qu .r, ord := [0, 1], faults := [] } ]
 
-/-- Known finding `ks-readonly-tx-on-replica`: with keep-session the connection
-    a read-only user's transaction runs on is a replica connection. -/
-theorem ks_readonly_tx_on_replica_witness :
+/-- Former finding `ks-readonly-tx-on-replica` (repaired by cb8bfb6): the
+    connection a read-only user's keep-session transaction runs on is a master
+    connection. -/
+theorem ks_readonly_tx_on_master :
     (run { ks := true, user := .r, fb := true } ksReadonlyOps).inTrans = true ∧
     (run { ks := true, user := .r, fb := true } ksReadonlyOps).ksConns = [(0, 0)] ∧
-    ((run { ks := true, user := .r, fb := true } ksReadonlyOps).w.conns.map (·.master)) = [false] := by
+    ((run { ks := true, user := .r, fb := true } ksReadonlyOps).w.conns.map (·.master)) = [true] := by
   decide
 
-/-- FULL STATEMENT (false, see the witness above): the same for every user.
-    With keep-session the pinned connections of a user that may write are master
-    connections. -/
-theorem ks_conns_master_partial (cfg : Cfg) (ops : List Op) (hu : cfg.user ≠ .r) :
+/-- With keep-session the pinned connections are master connections of the
+    slice they are filed under, and are out - for every user (the read-only
+    ones included since cb8bfb6), every history. -/
+theorem ks_conns_master (cfg : Cfg) (ops : List Op) :
     ∀ e ∈ (run cfg ops).ksConns, ∃ cn : Conn, (run cfg ops).w.conns[e.2]? = some cn ∧
       cn.master = true ∧ cn.slice = e.1 ∧ cn.returns = 0 := by
   have h := (idle_run_all cfg ops).inv.wi
@@ -265,13 +375,13 @@ theorem ks_conns_master_partial (cfg : Cfg) (ops : List Op) (hu : cfg.user ≠ .
   have hmem : e ∈ held (run cfg ops) := by simp [held, he]
   obtain ⟨cn, hcn, h0, hsl⟩ := h.out e hmem
   obtain ⟨cn', hcn', hm⟩ := h.mast e.2 (by
-    simp only [masters, hu, if_false, List.mem_append]; exact Or.inr (mem_vals.2 ⟨e.1, he⟩))
+    simp only [masters, List.mem_append]; exact Or.inr (mem_vals.2 ⟨e.1, he⟩))
   rw [hcn] at hcn'; cases hcn'
   exact ⟨cn, hcn, hm, hsl, h0⟩
 
 /-! Non-vacuity -/
 
-/-- a two-slice transaction with faults that are not timeouts -/
+/-- a two-slice transaction; then faults of every kind, a timeout on the other path included -/
 def demoOps : List Op :=
   [ { body := .begin, ord := [0, 1], faults := [] },
     { body := .qs .w [0, 1], ord := [1, 0], faults := [{ k := .x, slice := 1, mode := .e }] } ]
@@ -279,13 +389,23 @@ def demoMid : List Op :=
   [ { body := .qu .w, ord := [0, 1], faults := [{ k := .u, slice := 0, mode := .e }] },
     { body := .sp 1, ord := [1, 0], faults := [] },
     { body := .qs .r [1], ord := [0, 1], faults := [] } ]
+/-- the same with a statement timeout in the middle: the session is closed -/
+def demoMidLost : List Op :=
+  [ { body := .qu .w, ord := [0, 1], faults := [] },
+    { body := .qs .w [0, 1], ord := [0, 1], faults := [{ k := .x, slice := 1, mode := .t }] },
+    { body := .qu .w, ord := [0, 1], faults := [] } ]
 
 example : (run { ks := false, user := .w, fb := true } demoOps).txConns = [(1, 0), (0, 1)] := by decide
-example : (run { ks := false, user := .w, fb := true } (demoOps ++ demoMid)).txConns = [(1, 0), (0, 1)] := by decide
-example : Calm (demoOps ++ demoMid) := by
-  intro op hop f hf
-  simp [demoOps, demoMid] at hop
-  rcases hop with rfl | rfl | rfl | rfl | rfl <;> simp at hf <;> (try subst hf) <;> simp
-example : ∀ op ∈ demoMid, op.body.keepsTx = true := by decide
+example : (run { ks := false, user := .w, fb := true } demoOps).isInTransaction = true := by decide
+example : (run { ks := false, user := .w, fb := true } (demoOps ++ demoMid)).txConns = [(1, 0), (0, 1)] ∧
+    (run { ks := false, user := .w, fb := true } (demoOps ++ demoMid)).closed = false := by decide
+example : (run { ks := false, user := .w, fb := true } (demoOps ++ demoMidLost)).closed = true := by decide
+example : ∀ op ∈ demoMid ++ demoMidLost, op.body.keepsTx = true := by decide
+/-- keep-session: the transaction runs on the pinned connections -/
+example : held (run { ks := true, user := .rw, fb := true } demoOps) = [(1, 0), (0, 1)] ∧
+    held (run { ks := true, user := .rw, fb := true } (demoOps ++ demoMid)) = [(1, 0), (0, 1)] := by decide
+/-- a ROLLBACK that reaches both connections of the transaction -/
+example : callsOn .R (run { ks := false, user := .w, fb := true }
+    (demoOps ++ [{ body := .rollback, ord := [0, 1], faults := [] }])).w.trace = [0, 1] := by decide
 
 end GaeaVerif.C18
